@@ -1,6 +1,8 @@
 """C07 -- HDDDM/CDBD alarm exactly when the distance change exceeds the adaptive bound."""
 from .common import A_COMMON
-TARGETS = []
+HD = "menelaus.data_drift.hdddm:HDDDM"
+TARGETS = [("fn", HD + "._adaptive_threshold"), ("fn", HD + "._hellinger_distance"),
+           ("lemma", "hell_identity"), ("lemma", "hell_symmetric"), ("lemma", "hell_nonneg")]
 LEVEL = "exploration"
 LEVEL_TEXT = ('Bounded: real HDDDM / CDBD against an independent recomputation of aligned histograms, distances, epsilons, the adaptive threshold (t-statistic / number of standard deviations), decisions, reference handling, feature_info and counters over multi-drift batch sequences for detect_batch in {1,2,3}, 1-3 features; distance identities sampled. Claimed as exploration.')
 ASSUMPTIONS = A_COMMON + ['the bootstrap estimate of the first epsilon is taken from the detector as an input of the specification']
